@@ -12,14 +12,14 @@ From Calamine Require Import Prelude BiffSst BiffSst_proofs Meta Meta_proofs Met
 Open Scope N_scope.
 
 Definition with_codepage (cp : N) (c : xls_choice) : xls_choice :=
-  mkLc (lc_sheets c) (lc_names c) (lc_xtis c) ((66, le16 cp) :: lc_junk0 c) (lc_junk1 c)
+  mkLc (lc_sheets c) (lc_names c) (lc_xtis c) (lc_xcuts c) ((66, le16 cp) :: lc_junk0 c) (lc_junk1 c)
        (lc_junk2 c) (lc_junk3 c) (lc_omit_1904 c) (lc_tail c).
 
 Lemma xls_stream_with_codepage_len : forall cp c wb,
   len (xls_stream (with_codepage cp c) wb) = 6 + len (xls_stream c wb).
 Proof.
   intros cp c wb. unfold xls_stream, with_codepage.
-  cbn [lc_sheets lc_names lc_xtis lc_junk0 lc_junk1 lc_junk2 lc_junk3 lc_omit_1904 lc_tail].
+  cbn [lc_sheets lc_names lc_xtis lc_xcuts lc_junk0 lc_junk1 lc_junk2 lc_junk3 lc_omit_1904 lc_tail].
   change (frames ((66, le16 cp) :: lc_junk0 c)) with (frame 66 (le16 cp) ++ frames (lc_junk0 c)).
   rewrite !len_app.
   assert (H6 : len (frame 66 (le16 cp)) = 6) by reflexivity.
@@ -38,6 +38,8 @@ Proof.
   intros cp c wb Hcp Hl. unfold xls_legal in *.
   apply andb_true_iff in Hl. destruct Hl as [Hl Hpos].
   apply andb_true_iff in Hl. destruct Hl as [Hl Htail].
+  apply andb_true_iff in Hl. destruct Hl as [Hl Hconts].
+  apply andb_true_iff in Hl. destruct Hl as [Hl Hrec].
   apply andb_true_iff in Hl. destruct Hl as [Hl Hnx].
   apply andb_true_iff in Hl. destruct Hl as [Hl Hxt].
   apply andb_true_iff in Hl. destruct Hl as [Hl Hnames].
@@ -50,8 +52,10 @@ Proof.
   { apply (forallb_le_mono _ (len (xls_stream c wb)));
       [rewrite xls_stream_with_codepage_len; lia | exact Hpos]. }
   remember (xls_stream (with_codepage cp c) wb) as S eqn:ES.
-  cbn [with_codepage lc_sheets lc_names lc_xtis lc_junk0 lc_junk1 lc_junk2 lc_junk3 lc_tail forallb].
-  rewrite J0, J1, J2, J3, Hsheets, Hnames, Hxt, Hnx, Htail, Hpos'.
+  (* the environment of the names depends on the XTI table only *)
+  change (spec_env_xls (with_codepage cp c) wb) with (spec_env_xls c wb).
+  cbn [with_codepage lc_sheets lc_names lc_xtis lc_xcuts lc_junk0 lc_junk1 lc_junk2 lc_junk3 lc_tail forallb].
+  rewrite J0, J1, J2, J3, Hsheets, Hnames, Hxt, Hnx, Hrec, Hconts, Htail, Hpos'.
   assert (Hj : xjunk_ok (66, le16 cp) = true).
   { unfold xjunk_ok. cbn [fst snd]. change (len (le16 cp)) with 2. reflexivity. }
   rewrite Hj. reflexivity.
@@ -63,7 +67,7 @@ Theorem report_xls_any_codepage : forall show_f64 cp c wb, cp < 65536 ->
   xls_parse_workbook show_f64 (xls_stream (with_codepage cp c) wb) =
   xls_parse_workbook show_f64 (xls_stream c wb) /\
   xls_parse_workbook show_f64 (xls_stream (with_codepage cp c) wb) =
-  Ok (mkParsed (wb_sheets wb) [] (spec_names_xls c wb) (wb_1904 wb)).
+  Ok (mkParsed (wb_sheets wb) [] (spec_names_xls show_f64 c wb) (wb_1904 wb)).
 Proof.
   intros show_f64 cp c wb Hcp Hl.
   rewrite (xls_parse_encode show_f64 _ _ (with_codepage_legal cp c wb Hcp Hl)).
@@ -79,23 +83,24 @@ Proof.
 Qed.
 
 (* non-vacuity: the workbook of xlsn_nonvacuous (8- and 16-bit sheet names, non-ASCII and astral
-   characters, three defined names, an XTI table) with the CodePage record of JExcelApi (1252), of
+   characters, five defined names, an XTI table whose array continues in CONTINUE records: lc_xcuts)
+   with the CodePage record of JExcelApi (1252), of
    Excel (1200), of a Japanese writer (932), UTF-8 (65001), one no decoder table knows (437: not in
    the codepage crate; 54321: no code page) — and, through junk1, a second CodePage record *)
 Definition ex_xlsn_two : xls_choice :=
-  mkLc (lc_sheets ex_xlsn_c) (lc_names ex_xlsn_c) (lc_xtis ex_xlsn_c)
+  mkLc (lc_sheets ex_xlsn_c) (lc_names ex_xlsn_c) (lc_xtis ex_xlsn_c) (lc_xcuts ex_xlsn_c)
        [(225, [176; 4]); (66, [228; 4])] [(224, [0; 0; 14; 0]); (66, [164; 3; 9])] [] [(255, [])]
        false [9; 8].
 Lemma xls_codepage_nonvacuous :
   Forall (fun cp => xls_legal (with_codepage cp ex_xlsn_c) ex_xlsn_wb = true /\
                     xls_parse_workbook (fun _ => []) (xls_stream (with_codepage cp ex_xlsn_c) ex_xlsn_wb) =
-                    Ok (mkParsed (wb_sheets ex_xlsn_wb) [] (spec_names_xls ex_xlsn_c ex_xlsn_wb) true))
+                    Ok (mkParsed (wb_sheets ex_xlsn_wb) [] (spec_names_xls (fun _ => []) ex_xlsn_c ex_xlsn_wb) true))
          [1252; 1200; 932; 65001; 437; 54321; 0; 65535] /\
   firstn 10 (skipn 20 (xls_stream (with_codepage 1252 ex_xlsn_c) ex_xlsn_wb)) =
     [66; 0; 2; 0; 228; 4; 225; 0; 2; 0] /\
   xls_legal ex_xlsn_two ex_xlsn_wb = true /\
   xls_parse_workbook (fun _ => []) (xls_stream ex_xlsn_two ex_xlsn_wb) =
-  Ok (mkParsed (wb_sheets ex_xlsn_wb) [] (spec_names_xls ex_xlsn_c ex_xlsn_wb) true).
+  Ok (mkParsed (wb_sheets ex_xlsn_wb) [] (spec_names_xls (fun _ => []) ex_xlsn_c ex_xlsn_wb) true).
 Proof.
   split; [repeat constructor; vm_compute; reflexivity|].
   repeat split; vm_compute; reflexivity.
